@@ -12,9 +12,9 @@ import (
 
 func init() {
 	streams["SPARSE"] = streamSparse
-	streamRules["SPARSE"] = "blob sequences (share versions 0 and 1 with signers, lengths around the 458/478/482 capacity boundaries, namespace padding between blobs, reserved/tail padding around them): real SparseShareSplitter vs model vs independent Spec.sparseSeq; ParseBlobs, ParseShares; oracles for C08 (round trip), C10 (format), C13 (predicted share count), C20 (sequence tiling); non-trivial = distinct (version,length,padding) list with a multi-share blob"
+	streamRules["SPARSE"] = "blob sequences (share versions 0 and 1 with signers, lengths around the 458/478/482 capacity boundaries, namespace padding between blobs, reserved/tail padding around them): real SparseShareSplitter vs model vs independent Spec.sparseSeq; ParseBlobs, ParseShares; oracles for C08 (round trip), C10 (format), C13 (predicted share count), C20 (sequence tiling); non-trivial = distinct (version,length,padding) list with a multi-share blob Added: blobs whose data are windows of one buffer, exhaustive look-alike namespaces, boundary signers, refused padding requests between writes, twelve goroutines with independent splitters."
 	streams["RANGE"] = streamRange
-	streamRules["RANGE"] = "namespace-ordered share lists over small namespace alphabets x query namespaces present / absent-between / below / above; oracle: result == the contiguous run of the query namespace; non-trivial = distinct (list shape, query)"
+	streamRules["RANGE"] = "namespace-ordered share lists over small namespace alphabets x query namespaces present / absent-between / below / above; oracle: result == the contiguous run of the query namespace; non-trivial = distinct (list shape, query) Added: near-miss queries of present namespaces (other version, one byte changed)."
 }
 
 func seqsStr(seqs []share.Sequence) string {
